@@ -886,6 +886,23 @@ func (tt *TermTable) Eq(a, b *Term) *Term {
 			return tt.BNot(a)
 		}
 	}
+	if a.sort.K == SBV {
+		// (p ^ q) == p  <=>  q == 0
+		if a.op == OXor && (a.args[0] == b || a.args[1] == b) && a.sort.W <= 64 {
+			other := a.args[0]
+			if other == b {
+				other = a.args[1]
+			}
+			return tt.Eq(other, tt.BV(a.sort.W, 0))
+		}
+		if b.op == OXor && (b.args[0] == a || b.args[1] == a) && a.sort.W <= 64 {
+			other := b.args[0]
+			if other == a {
+				other = b.args[1]
+			}
+			return tt.Eq(other, tt.BV(a.sort.W, 0))
+		}
+	}
 	if a.sort.K == SBV && a.sort.W <= 64 {
 		// x == -s  <=>  x + s == 0
 		if a.op == ONeg {
